@@ -280,7 +280,10 @@ class Tally:
 
     def merge(self, other):
         for k, v in other.counts.items():
-            self.counts[k] = self.counts.get(k, 0) + v
+            if k.startswith("max_"):
+                self.counts[k] = max(self.counts.get(k, 0), v)
+            else:
+                self.counts[k] = self.counts.get(k, 0) + v
         for k, v in other.viol_counts.items():
             self.viol_counts[k] = self.viol_counts.get(k, 0) + v
         for s, c in other.violations:
